@@ -100,6 +100,13 @@ def const_eval(node: ast.AST, env: dict[str, object]) -> object:
         raise ValueError
     if isinstance(node, (ast.Tuple, ast.List)):
         return tuple(const_eval(e, env) for e in node.elts)
+    if isinstance(node, ast.Set):
+        return frozenset(const_eval(e, env) for e in node.elts)
+    if isinstance(node, ast.Call) and isinstance(node.func, ast.Name) and node.func.id in ("frozenset", "set", "tuple") and len(node.args) <= 1 and not node.keywords:
+        inner = const_eval(node.args[0], env) if node.args else ()
+        if isinstance(inner, (tuple, frozenset)):
+            return tuple(inner) if node.func.id == "tuple" else frozenset(inner)
+        raise ValueError
     if isinstance(node, ast.UnaryOp) and isinstance(node.op, ast.USub):
         v = const_eval(node.operand, env)
         if isinstance(v, int):
